@@ -196,7 +196,7 @@ def run_tlc(module, cfg, workers=None, timeout=600, simulate=None, depth=None, c
     if "Error:" in r.stdout or "error" in r.stdout and "No error has been found" not in r.stdout:
         # distinguish property violations from tool errors
         mv = re.search(r"Error: (Invariant \S+ is violated|Action property \S+ is violated|Temporal properties were violated|"
-                       r"Deadlock reached|Assumption .* is false|Evaluating assumption .* failed)[^\n]*", r.stdout)
+                       r"Deadlock reached|Assumption .* is false|Evaluating assumption .* failed|Postcondition \S+ [^\n]* is false)[^\n]*", r.stdout)
         if mv:
             r.violation = mv.group(0)
         elif "Error:" in r.stdout:
@@ -554,3 +554,37 @@ def compare_program(o, exp_events, exp_fin="done", tokf=None):
         if not val_match(exp_fin[6:], o.get("err"), tokf):
             return {"kind": "outcome", "detail": "expected error value %s, got %s" % (exp_fin[6:], json.dumps(o.get("err")))}
     return None
+
+
+# --------------------------------------------------------------------------
+# trace validation (direction B)
+
+
+def validate_traces(module, cfg, traces, fields, timeout=1200):
+    """traces: list of (tag, [event dict, ...]).  Events are normalised to `fields` (dict name -> default), a
+    {"k": "reset"} line is appended after each trace, the file is given to TLC through env TRACEFILE, and acceptance
+    is `diameter - 1 = Len(Trace)` (POSTCONDITION in the cfg).  Returns (ok, info): info has lines, states, and on
+    rejection the tag/index/event of the first line TLC could not match and the longest matched prefix length."""
+    path = os.path.join(scratch(), "trace-%d.ndjson" % len(os.listdir(scratch())))
+    index = []  # line number (1-based) -> (trace idx, event idx)
+    with open(path, "w") as f:
+        for ti, (tag, evs) in enumerate(traces):
+            for ei, e in enumerate(evs + [{"k": "reset"}]):
+                d = {k: e.get(k, dv) if e.get(k) is not None else dv for k, dv in fields.items()}
+                f.write(json.dumps(d, separators=(",", ":")) + "\n")
+                index.append((ti, ei))
+    res = run_tlc(module, cfg, workers=1, timeout=timeout, env={"TRACEFILE": path})
+    m = re.search(r"The depth of the complete state graph search is (\d+)", res.stdout)
+    depth = int(m.group(1)) if m else 0
+    info = {"lines": len(index), "states": res.distinct, "depth": depth, "tlc_wall_s": round(res.wall, 1)}
+    os.unlink(path)
+    if res.violation is None and depth - 1 == len(index):
+        return True, info
+    bad = min(max(depth - 1, 0), len(index) - 1)   # 0-based index of the first unmatched line
+    if res.violation and "Invariant" in res.violation:
+        info["invariant"] = res.violation
+    ti, ei = index[bad]
+    info.update(trace_tag=traces[ti][0], trace_index=ti, event_index=ei,
+                event=(traces[ti][1] + [{"k": "reset"}])[ei], matched_prefix=bad,
+                context=(traces[ti][1] + [{"k": "reset"}])[max(0, ei - 6):ei + 1])
+    return False, info
